@@ -3074,6 +3074,9 @@ func (p *Posix) PutObject(ctx context.Context, po s3response.PutObjectInput) (s3
 	dir := filepath.Dir(name)
 	if dir != "" {
 		err = backend.MkdirAll(dir, uid, gid, doChown, p.newDirPerm)
+		if errors.Is(err, s3err.GetAPIError(s3err.ErrNoSuchBucket)) {
+			return s3response.PutObjectOutput{}, err
+		}
 		if err != nil {
 			return s3response.PutObjectOutput{}, s3err.GetAPIError(s3err.ErrExistingObjectIsDirectory)
 		}
